@@ -153,6 +153,11 @@ def _ddp_rank(ds, torch, OM, S, seed, stops, rank, world):
         stats["dtensor_leaves"] += sum(1 for st in sd["state"].values() for v in st.values() if hasattr(v, "to_local"))
         o2.load_distributed_state_dict(sd, key_to_param=iter(names(ps2)))
         stats["resumes"] += 1
+        sn0 = snap(o2, ps2)  # the state right after loading is the state this rank had at k
+        stats["loaded_state_compared"] = stats.get("loaded_state_compared", 0) + 1
+        if sn0 != traj[k - 1]:
+            bad = next((pa for (pa, ha), (pb, hb) in zip(sn0, traj[k - 1]) if pa != pb or ha != hb), "the number of state tensors")
+            raise Violation(f"rank {rank}: resume from step {k}: right after loading, {bad} differs from the uninterrupted run at step {k} (DDP / DTensor state)", stop_step=k, step=k, rank=rank, tensor=str(bad))
         for t in range(k, S["T"]):
             world.iteration(it)
             it += 1
@@ -206,6 +211,7 @@ def _run_ddp(case):
         counters["evals"] += st["resumes"]
         counters["ddp_steps_after_resume"] += st["steps_after_resume"]
         counters["ddp_dtensor_leaves_saved"] += st["dtensor_leaves"]
+        counters["ddp_loaded_state_compared"] = counters.get("ddp_loaded_state_compared", 0) + st.get("loaded_state_compared", 0)
         counters["tensors_compared"] += st["tensors_compared"]
     sig = ["ddp", S["W"], S["G"], S["comm"], S["communicate_params"], S["cfg"]["precond"]["kind"], (S["cfg"]["grafting"] or {}).get("type", "none")]
     return {"counters": counters, "sigs": [sig] if S["W"] >= 2 else [], "sample": {k: desc[k] for k in ("family", "W", "G", "comm", "shapes", "stops")}}
